@@ -5,6 +5,9 @@
 # undo with git -C /repo checkout -- . ; results go to seeded/<id>/applied.txt.
 # Run it only when nothing else (vp run, agents, sweeps) is using /repo.
 cd /verif
+# APPLYCHECK_VERIF=<dir>: run the checks from a frozen copy of /verif (git archive HEAD | tar -x -C <dir>)
+# so that /verif can be edited meanwhile; applied.txt is still written under /verif/seeded.
+VD=${APPLYCHECK_VERIF:-/verif}
 ids="$@"; [ -z "$ids" ] && ids=$(ls seeded | grep -v '^\.' )
 for id in $ids; do
   d=seeded/$id; [ -f $d/patch.diff ] || continue
@@ -12,7 +15,7 @@ for id in $ids; do
   prop=$(python3 -c "import json;print(json.load(open('$d/meta.json'))['property'])")
   fire=$(python3 -c "import json;m=json.load(open('$d/meta.json'));f=m.get('quick_checks_that_fire') or [];print(m['property'] if m['property'] in f or not f else f[0])")
   if ! git -C /repo apply $PWD/$d/patch.diff 2>/dev/null; then echo "$id patch does not apply to /repo HEAD" | tee $d/applied.txt; continue; fi
-  out=$(./vcheck $fire --tier quick 2>&1); rc=$?
+  out=$(VERIF_DIR=$VD $VD/vcheck $fire --tier quick 2>&1); rc=$?
   git -C /repo checkout -- .
   if [ -n "$(git -C /repo status --porcelain)" ]; then git -C /repo clean -fdq; fi   # files the patch created
   {
